@@ -82,6 +82,20 @@ def _factory(params, env=None):
             # the state lock may be held by the dying thread of control: a new process has a new lock
             lab.restart()
             h.drain()
+            if params.get("after"):
+                # life goes on after the recovery: one more user operation (what the crash left half-recorded must not swallow it)
+                side3 = e.choose("side", 2)
+                op3 = OPS[e.choose("op", len(OPS))]
+                target3 = {"write_a": "/a", "delete_a": "/a"}.get(op3)
+                before3 = lab.user(lambda: content_at(side3, target3)) if target3 else None
+                d3 = h.user(side3, op3, b"v9")
+                if d3[0] in ("create", "write"):
+                    live[d3[2]] = d3[1]
+                if d3[0] in ("write", "delete") and before3 is not None:
+                    live.pop(before3, None)
+                if d3[0] not in ("noop", "failed"):
+                    sides.add(side3)
+                h.drain()
             tl, tr = lab.tree(0), lab.tree(1)
             info = dict(local=show(tl), remote=show(tr), crash=crashed)
             if strip_conflicted(tl) != strip_conflicted(tr):
@@ -132,6 +146,10 @@ def jobs(tier):
     for f in (("oid", "path") if q else ("oid", "path", "mixed")):
         # first start over accounts that already hold content: the process dies at any storage / provider write of the first run (start-up walk included)
         out.append({"harness": "cold-crash", "params": {"flavour": f, "mode": "crash", "maxcrash": 45}, "label": "%s/cold-start/crash" % f})
+        for side in (0, 1):
+            for op in ("write_a", "create_b", "rename_a_b", "move_a_d"):
+                out.append({"harness": "crash", "params": {"flavour": f, "nops": 1, "maxcrash": 10, "first": [side, op], "after": True},
+                            "label": "%s/1-op/crash/then-one-more-operation/first=%d:%s" % (f, side, op)})
         for side in (0, 1):
             for op in OPS:
                 n = 2 if (q or f != "oid") else 3
